@@ -141,6 +141,16 @@ func (w *World) VerifyFunc(ct *Contract) (res *FuncResult) {
 	if reach != "false" && ct.ModSet {
 		e.frameObligations(fr, ct, entry, out, reach)
 	}
+	// callsites <callee> <n>: a syntactic bound on who calls the callee directly
+	for _, callee := range sortedKeys(ct.CallSites) {
+		want := ct.CallSites[callee]
+		got := len(e.cutSites(fn, "call", callee))
+		f := "true"
+		if got != want {
+			f = "false"
+		}
+		e.ob(fr, "assert", "callsites@"+callee, "true", f, fmt.Sprintf("exactly %d call sites of %s (found %d)", want, callee, got), fn.Pos())
+	}
 	// a cut-point assertion that matched no call says something about a call that is not there
 	for k, ca := range ct.Asserts {
 		if ca.Kind == "call" && fr.callN[fmt.Sprintf("assertseen:%d", k)] == 0 {
